@@ -170,7 +170,7 @@ theorem facts_shape :
     ∧ txnSteps = ["sort.Strings", "dataset.(*Dataset).WriteLock.Lock", "time.Now().UnixNano", "ds.StoreEntitiesWithTransaction", "s.commitIDTxn", "txn.Commit", "ds.(*Dataset).updateDataset"] := by decide
 
 -- non-vacuity: a later write does not change a pinned lookup, an earlier instant does not see it
-example : let e1 : Ent := ⟨1, false, [(5, 2)], "a"⟩; let e1' : Ent := ⟨1, true, [], "b"⟩
+example : let e1 : Ent := ⟨1, false, [(5, 2)], "a", []⟩; let e1' : Ent := ⟨1, true, [], "b", []⟩
     let db := storeBatch {} 2 10 [e1]; let db' := storeBatch db 2 20 [e1']
     partialsAt db' 1 15 [] = partialsAt db 1 15 [] ∧ (partialsAt db' 1 15 []).1.length = 1
     ∧ (partialsAt db' 1 25 []).1.length = 0
